@@ -33,7 +33,45 @@ type Case struct {
 	AddRoot   bool   `json:"add_root,omitempty"`   // tar: stream without root entry + TarReaderOptions.AddRoot
 	DotPrefix bool   `json:"dot_prefix,omitempty"` // tar: member names start with "./"
 	Root      Spec   `json:"root"`
-	Conc      int    `json:"conc,omitempty"` // synth: additionally pack the tree this many times concurrently
+	Conc      int    `json:"conc,omitempty"`      // synth: additionally pack the tree this many times concurrently
+	Spelling  string `json:"spelling,omitempty"`  // disk: how the root path is spelled (see spellings)
+	CLI       bool   `json:"cli,omitempty"`       // disk: also run `desync tar` and `desync tar -i` (needs $VERIF_DESYNC_BIN)
+	Prior     string `json:"prior,omitempty"`     // CLI: state of the catar output path before the command (see priors)
+	PriorIdx  string `json:"prior_idx,omitempty"` // CLI: state of the caidx output path before the command
+}
+
+// spellings of the root path handed to NewLocalFS / the CLI. The tree lives at <scratch>/p/root,
+// <scratch>/p/x is an empty directory. Every spelling names the same directory, so every
+// spelling must produce the same archive.
+var spellings = []string{"canonical", "slash", "slashdot", "dotslash", "relative", "dslash", "dotmid", "updown", "slashes"}
+
+// spell returns the argument and, for relative spellings, the working directory to use.
+func spell(spelling, parent string, isDir bool) (arg, cwd, used string) {
+	if !isDir { // "file/" is ENOTDIR
+		switch spelling {
+		case "slash", "slashdot", "slashes":
+			spelling = "dotmid"
+		}
+	}
+	switch spelling {
+	case "slash":
+		return parent + "/root/", "", spelling
+	case "slashdot":
+		return parent + "/root/.", "", spelling
+	case "slashes":
+		return parent + "/root//", "", spelling
+	case "dotslash":
+		return "./root", parent, spelling
+	case "relative":
+		return "root", parent, spelling
+	case "dslash":
+		return parent + "//root", "", spelling
+	case "dotmid":
+		return parent + "/./root", "", spelling
+	case "updown":
+		return parent + "/x/../root", "", spelling
+	}
+	return parent + "/root", "", "canonical"
 }
 
 // ------------------------------------------------------------------ generator
@@ -178,6 +216,13 @@ func genCase(t *rapid.T) Case {
 	switch c.Src {
 	case "synth":
 		c.RootPath = rapid.SampledFrom([]string{".", "/", "r", "/a/b", "a/b", "/tmp/x y"}).Draw(t, "rootpath")
+	case "disk":
+		c.Spelling = rapid.SampledFrom(append([]string{"canonical", "canonical", "slash"}, spellings...)).Draw(t, "spelling")
+		if cliBin() != "" && rapid.IntRange(0, hx.Pick(7, 3)).Draw(t, "cli?") == 0 {
+			c.CLI = true
+			c.Prior = rapid.SampledFrom(append([]string{"longer", "bigger"}, priors...)).Draw(t, "prior")
+			c.PriorIdx = rapid.SampledFrom(append([]string{"longer"}, priors...)).Draw(t, "prioridx")
+		}
 	case "tar":
 		c.TarFormat = rapid.SampledFrom([]string{"pax", "gnu"}).Draw(t, "tarformat")
 		c.AddRoot = rapid.Bool().Draw(t, "addroot")
@@ -323,14 +368,42 @@ func run(c Case) (o hx.Outcome) {
 	case "disk":
 		dir := hx.Scratch("c13")
 		defer os.RemoveAll(dir)
-		root := filepath.Join(dir, "root")
+		parent := filepath.Join(dir, "p")
+		if merr := os.MkdirAll(filepath.Join(parent, "x"), 0o755); merr != nil {
+			panic(fmt.Sprintf("harness: %v", merr))
+		}
+		root := filepath.Join(parent, "root")
 		if merr := materialise(root, tree, &notes); merr != nil {
 			panic(fmt.Sprintf("harness: cannot build the tree on disk: %v", merr))
 		}
 		if want, err = snapshot(root, ""); err != nil {
 			panic(fmt.Sprintf("harness: cannot list the tree on disk: %v", err))
 		}
-		err = desync.Tar(context.Background(), &out, desync.NewLocalFS(root, desync.LocalFSOptions{}))
+		arg, cwd, used := spell(c.Spelling, parent, tree.kind == "dir")
+		o.Class("root-spelling:" + used)
+		if cwd != "" {
+			old, werr := os.Getwd()
+			if werr != nil || os.Chdir(cwd) != nil {
+				panic("harness: cannot change the working directory")
+			}
+			defer os.Chdir(old)
+		}
+		err = desync.Tar(context.Background(), &out, desync.NewLocalFS(arg, desync.LocalFSOptions{}))
+		if used != "canonical" {
+			// every spelling names the same directory: the archive must not depend on it
+			o.Class("root-spelling:non-canonical")
+			var canon bytes.Buffer
+			if cerr := desync.Tar(context.Background(), &canon, desync.NewLocalFS(root, desync.LocalFSOptions{})); cerr == nil && err == nil && !bytes.Equal(canon.Bytes(), out.Bytes()) {
+				o.Fail("C13:root-spelling:archive-differs", "the same tree packed through NewLocalFS(%q) gives %d bytes, through the canonical spelling %q %d bytes", arg, out.Len(), root, canon.Len())
+			}
+		}
+		if c.CLI && cliBin() != "" && err == nil {
+			flags := uint64(0)
+			if g, _ := catar.ValidateAll(out.Bytes(), catar.ValidateOptions{}); g != nil {
+				flags = g.Flags
+			}
+			cliTar(&o, c, dir, cwd, arg, out.Bytes(), want, flags)
+		}
 	case "tar":
 		format := c.TarFormat
 		if format != "gnu" {
@@ -448,7 +521,8 @@ var spec = &hx.Spec[Case]{
 	ID:    "C13",
 	Level: "exploration",
 	Rule: "cases = (source: synthetic FilesystemReader | tree on disk via LocalFS | tar stream via TarReader; tree of depth <= 5 with dirs, files, symlinks, devices, " +
-		"fifos/sockets, xattrs, names of 1..255 arbitrary bytes, directory fan-outs from {0..9, 2^k-1, 2^k, 2^k+1} and uniform; sibling order sorted or arbitrary); " +
+		"fifos/sockets, xattrs, names of 1..255 arbitrary bytes, directory fan-outs from {0..9, 2^k-1, 2^k, 2^k+1} and uniform; sibling order sorted or arbitrary; " +
+		"disk: root path in 9 spellings; CLI (if built): desync tar / tar -i over an output path that is absent, holds a shorter file, a longer file or the previous output of a bigger tree); " +
 		"TestEnum additionally enumerates every root fan-out 0..1100 (quick) / 0..5000 (thorough); " +
 		"non-trivial = some directory has >= 3 children; distinct by (source, multiset of directory fan-outs)",
 	Assumptions: []string{
@@ -458,15 +532,22 @@ var spec = &hx.Spec[Case]{
 		"fifos and sockets may be absent from the archive (desync documents skipping them); if present they must be ENTRY-only nodes",
 		"tar source: the stream is in tar(1) order (parents first, depth first); with AddRoot the made-up root entry is not compared",
 		"mtime >= 0; uid/gid <= 2^32-2; device major < 2^12, minor < 2^20; unique names per directory",
+		"disk source: the root path is handed over in nine spellings of the same directory (canonical, trailing slash(es), /., ./x, relative, //, /./, /x/../); the archive must be the same for all",
+		"CLI level (desync tar, desync tar -i over output paths with a history) only when the driver provides the freshly built CLI in $VERIF_DESYNC_BIN; a CLI run that exceeds 120 s is not judged",
 	},
 	Required: []string{"concurrent-tar", "src:synth", "src:disk", "src:tar", "fanout:0", "fanout:1", "fanout:2", "fanout:3", "fanout:2^k-1", "fanout:2^k", "fanout:2^k+1",
-		"depth>=3", "namelen:255", "xattrs", "kind:lnk", "kind:chr", "kind:blk", "order:unsorted"},
+		"depth>=3", "namelen:255", "xattrs", "kind:lnk", "kind:chr", "kind:blk", "order:unsorted",
+		"root-spelling:non-canonical", "root-spelling:canonical", "root-spelling:slash", "root-spelling:slashdot", "root-spelling:dotslash", "root-spelling:relative",
+		"root-spelling:dslash", "root-spelling:dotmid", "root-spelling:updown", "root-spelling:slashes"},
 	Gen: genCase,
 	Run: run,
 }
 
 func TestMain(m *testing.M) {
 	debug.SetGCPercent(400) // many short-lived trees: spend the time on cases, not on the collector
+	if cliBin() != "" {
+		spec.Required = append(spec.Required, cliRequired...)
+	}
 	hx.Main(m)
 }
 
